@@ -262,6 +262,14 @@ impl<'a> Tr<'a> {
                     if n == "char_len" {
                         return Ty::Word;
                     }
+                    if (n == "max" || n == "min") && c.args.len() == 2 {
+                        return self.num_ty(&c.args[0], &c.args[1]);
+                    }
+                    if let Some((_, (_, t))) = self.all_done.iter().find(|((_, _, f), _)| *f == n) {
+                        if self.file.fns.iter().all(|f| f.key.1 != n) {
+                            return t.clone();
+                        }
+                    }
                     if let Some(fi) = self.file.fns.iter().find(|f| !f.has_self && f.key.1 == n) {
                         return fi.ret.clone();
                     }
@@ -365,6 +373,18 @@ impl<'a> Tr<'a> {
                 let x = self.fresh("v");
                 b.push((x.clone(), c));
                 Ok(x)
+            }
+            Expr::Range(r) if matches!(r.limits, syn::RangeLimits::HalfOpen(_)) => {
+                // a..b as an iterator: evaluated once, before the loop
+                let from = match &r.start {
+                    Some(e) => self.expr_h(e, &Ty::Word, b)?,
+                    None => return Err("range without a start".into()),
+                };
+                let to = match &r.end {
+                    Some(e) => self.expr_h(e, &Ty::Word, b)?,
+                    None => return Err("range without an end".into()),
+                };
+                Ok(format!("(rs_range {} {})", from, to))
             }
             Expr::Struct(st) => {
                 if last_ident(&st.path) != "BidiMatchedOpeningBracket" || st.rest.is_some() {
@@ -558,6 +578,15 @@ impl<'a> Tr<'a> {
                 _ => {}
             }
         }
+        if segs.len() == 1 && (n == "max" || n == "min") && c.args.len() == 2 {
+            let t = self.num_ty(&c.args[0], &c.args[1]);
+            if !t.is_nat() {
+                return Err("max/min on a type other than an unsigned integer or Level".into());
+            }
+            let x = self.expr_h(&c.args[0], &t, b)?;
+            let y = self.expr_h(&c.args[1], &t, b)?;
+            return Ok(format!("(Nat.{} {} {})", n, x, y));
+        }
         // T::char_len(c) for the TextSource type parameter
         if segs.len() == 2 && n == "char_len" && c.args.len() == 1 {
             let a = self.expr(&c.args[0], b)?;
@@ -570,10 +599,22 @@ impl<'a> Tr<'a> {
         } else {
             (None, n.clone())
         };
-        let coq = self.done.get(&key).cloned().ok_or(format!("call to `{}` which is not translated", segs.join("::")))?;
+        let coq = match self.done.get(&key) {
+            Some(c) => c.clone(),
+            None => {
+                // `module::f(..)` / `Level::f(..)` defined in another translated file
+                let found = self.all_done.iter().find(|((stem, l, f), _)| {
+                    *f == n && (segs.len() < 2 || (l.is_none() && *stem == segs[segs.len() - 2]) || l.as_deref() == key.0.as_deref())
+                });
+                match found {
+                    Some((_, (c, _))) => c.clone(),
+                    None => return Err(format!("call to `{}` which is not translated", segs.join("::"))),
+                }
+            }
+        };
         let a = self.args(&c.args, b)?;
         let x = self.fresh("r");
-        b.push((x.clone(), format!("{} {}", coq, a.join(" "))));
+        b.push((x.clone(), format!("{} {}", coq, a.join(" ")).trim_end().to_string()));
         Ok(x)
     }
 
@@ -1070,7 +1111,13 @@ impl<'a> Tr<'a> {
                     let l = self.expr(&args.a, &mut b)?;
                     format!("(match {} with None => true | Some _ => false end)", l)
                 } else {
-                    return Err("assert_eq! on values other than `x, None`".into());
+                    let t = self.num_ty(&args.a, rhs);
+                    if !t.is_nat() {
+                        return Err("assert_eq! on values the translator cannot type".into());
+                    }
+                    let l = self.expr_h(&args.a, &t, &mut b)?;
+                    let r = self.expr_h(rhs, &t, &mut b)?;
+                    format!("(Nat.eqb {} {})", l, r)
                 }
             };
             let k = self.flow(rest, fin)?;
@@ -1200,8 +1247,66 @@ impl<'a> Tr<'a> {
             Expr::ForLoop(fl) => self.flow_for(fl, rest, fin),
             Expr::Macro(m) => self.flow_macro(&m.mac, rest, fin),
             Expr::Tuple(t) if t.elems.is_empty() => self.flow(rest, fin),
+            Expr::MethodCall(m) => {
+                let mut b = vec![];
+                self.mut_method_stmt(m, &mut b)?;
+                let k = self.flow(rest, fin)?;
+                Ok(wrap(&b, &k))
+            }
             _ => Err(format!("unsupported statement: {}", kind(e))),
         }
+    }
+
+    /// `v[i].raise(2).expect("..")` / `v[i].raise(2)` / `x.lower(1).unwrap()` as a statement: a `&mut self`
+    /// method of Level applied to a place; the place is written back, `expect` panics on Err.
+    fn mut_method_stmt(&mut self, m: &syn::ExprMethodCall, b: &mut Binds) -> R<()> {
+        let name = m.method.to_string();
+        let (call, expect) = if name == "expect" || name == "unwrap" {
+            match strip(&m.receiver) {
+                Expr::MethodCall(inner) => (inner, true),
+                _ => return Err("expect/unwrap statement on something other than a method call".into()),
+            }
+        } else {
+            (m, false)
+        };
+        let mname = call.method.to_string();
+        let coq = self
+            .all_done
+            .iter()
+            .find(|((s, l, n), _)| s == "level" && l.as_deref() == Some("Level") && *n == mname)
+            .map(|(_, (c, _))| c.clone())
+            .ok_or(format!("statement call to `{}` which is not a translated Level method", mname))?;
+        let is_mut = matches!(mname.as_str(), "raise" | "raise_explicit" | "lower");
+        if !is_mut {
+            return Err(format!("method `{}` used as a statement", mname));
+        }
+        let a = self.args(&call.args, b)?;
+        let pair = self.fresh("mr");
+        match strip(&call.receiver) {
+            Expr::Index(ix) => {
+                let v = local_name(&ix.expr).ok_or("mutating method on an element of a non-variable")?;
+                if !self.is_mut_local(&v) {
+                    return Err("mutating method on an element of an immutable variable".into());
+                }
+                let i = self.expr(&ix.index, b)?;
+                let cur = self.fresh("ix");
+                b.push((cur.clone(), format!("rs_index {} {}", coq_ident(&v), i)));
+                b.push((pair.clone(), format!("{} {} {}", coq, cur, a.join(" "))));
+                b.push((coq_ident(&v), format!("rs_upd {} {} (fst {})", coq_ident(&v), i, pair)));
+            }
+            e => {
+                let v = local_name(e).ok_or("mutating method on something other than a variable or an element")?;
+                if !self.is_mut_local(&v) {
+                    return Err("mutating method on an immutable variable".into());
+                }
+                b.push((pair.clone(), format!("{} {} {}", coq, coq_ident(&v), a.join(" "))));
+                b.push((coq_ident(&v), format!("Ok (fst {})", pair)));
+            }
+        }
+        if expect {
+            b.push(("_".into(), format!("rs_expect (snd {})", pair)));
+        }
+        Ok(())
     }
 
     fn flow_if(&mut self, i: &syn::ExprIf, w: &[String]) -> R<String> {
@@ -1312,6 +1417,8 @@ impl<'a> Tr<'a> {
                 elem.clone()
             } else if matches!(strip(&fl.expr), Expr::MethodCall(m) if m.method == "chars") {
                 Ty::Char
+            } else if matches!(strip(&fl.expr), Expr::Range(_)) {
+                Ty::Word
             } else {
                 Ty::Unknown
             };
@@ -1453,6 +1560,23 @@ impl<'ast> Visit<'ast> for Writes {
             }
         }
         syn::visit::visit_expr_binary(self, b);
+    }
+    fn visit_expr_method_call(&mut self, m: &'ast syn::ExprMethodCall) {
+        if matches!(m.method.to_string().as_str(), "raise" | "raise_explicit" | "lower") {
+            match strip(&m.receiver) {
+                Expr::Index(ix) => {
+                    if let Some(v) = local_name(&ix.expr) {
+                        self.set.insert(v);
+                    }
+                }
+                e => {
+                    if let Some(v) = local_name(e) {
+                        self.set.insert(v);
+                    }
+                }
+            }
+        }
+        syn::visit::visit_expr_method_call(self, m);
     }
     fn visit_expr_for_loop(&mut self, fl: &'ast syn::ExprForLoop) {
         // for x in &mut v[..] { *x = .. } writes v
@@ -1721,6 +1845,8 @@ pub const FUNCS: &[(&str, &str, &str)] = &[
     ("lib", "", "para_direction"),
     ("lib", "", "get_base_direction_impl"),
     ("lib", "", "reorder_levels"),
+    ("lib", "", "assign_levels_to_removed_chars"),
+    ("implicit", "", "resolve_levels"),
 ];
 
 pub fn translate_all(repo: &Path, report: &mut Report) -> String {
